@@ -131,9 +131,9 @@ def run(tier, replay):
         loop = gen("Gen_loop%d_%s.cfg" % (n, tag))
         fields = gen("Gen_fields1_%s.cfg" % tag)
         expmap = {key(x["script"]): x for x in loop + fields}
-        sims = sim("Sim_%d_%s.cfg" % (n, tag), 1500 if thorough else 200)
+        sims = sim("Sim_%d_%s.cfg" % (n, tag), 800 if thorough else 200)
         rts = ["threaded"] if has_t else ["threaded", "tokio"]
-        cap_loop = len(loop) if thorough else 110
+        cap_loop = 900 if thorough else 110    # seeded sample of the script catalogue (the MC runs cover it exhaustively)
         loop_sel = loop if len(loop) <= cap_loop else rnd.sample(loop, cap_loop)
         for rt in rts:
             for x in loop_sel:
